@@ -19,7 +19,7 @@ RULE = ('Noll indices 1..231 (quick) / 1..1326 (thorough) enumerated completely 
 ASSUMPTIONS = ['the sign of sine modes is not pinned by the property: +sin and -sin are both accepted (per mode)']
 PLAN = {'quick': {'gen': 8}, 'thorough': {'gen': 16, 'tests': 1, 'docs': 1}}
 REQUIRED_BUCKETS = ['index', 'value:normalized', 'value:unnormalized', 'gram:diag', 'gram:offdiag', 'coords:even', 'coords:odd',
-                    'coords:offcentre', 'support-only', 'coords:shared', 'basis', 'compose:normalized', 'compose:unnormalized', 'theta:undefined-for-m=0', 'coords:narrow-float', 'value:high-order', 'coords:rho>1', 'coords:result-edited', 'zero-outside:overflow']
+                    'coords:offcentre', 'support-only', 'coords:shared', 'basis', 'compose:normalized', 'compose:unnormalized', 'theta:undefined-for-m=0', 'coords:narrow-float', 'value:high-order', 'coords:rho>1', 'coords:result-edited', 'zero-outside:overflow', 'coords:theta-only']
 REQUIRED_ANCHORS = ['probe:zernike_index', 'anchor:R', 'anchor:zernike', 'anchor:zernike_coordinates']
 REQUIRED_ORACLES = ['index=noll', 'index:bijective', 'mode=textbook', 'R(1)=1', 'gram=I', '|Z|<=1', 'rho=centroid-distance',
                     'origin=centroid', 'zero-outside', 'support-only']
@@ -337,6 +337,20 @@ def workload(ctx, lentil):
                       'origin=centroid', f'coords|origin|{par}',
                       'tip/tilt modes on default coordinates do not vanish at the mask centroid with slope 1/rmax',
                       dict(desc, mode=name, value_at_centroid=float(sol[0]), grad=gn, want_grad=1 / rmax))
+        # coordinates supplied by halves: an azimuth without a radius is either used (with the default radius) or refused - never
+        # silently dropped
+        if i % 4 == 2:
+            ctx.bucket('coords:theta-only')
+            th_ = theta_l + float(rng.uniform(0.3, 2.5))
+            try:
+                with np.errstate(all='ignore'):
+                    zt = np.asarray(lentil.zernike(mask.astype(float), 2, theta=th_), float)
+                want = np.asarray(lentil.zernike(mask.astype(float), 2, rho=rho_l, theta=th_), float)
+                ctx.close('rho=centroid-distance', zt, want, 1e-12, 'coords|theta-only|ignored',
+                          'an azimuth supplied without a radius is silently ignored (the default frame is used instead)', desc,
+                          scale=max(1.0, float(np.abs(want).max())))
+            except ValueError:
+                ctx.check(True, 'rho=centroid-distance', 'ok', 'ok')
         # zero outside the mask, mask enters only through its support
         j = int(rng.integers(1, 37))
         za = np.asarray(lentil.zernike(mask.astype(float), j), float)
